@@ -36,16 +36,16 @@ theorem c02_no_write_lost (wall : Int → Int) (fuel : Nat) (s : Pair) (ha : Inv
   have h := syncNode_fwd wall fuel s s parent id ⟨⟨ha, StLe.refl _⟩, ⟨hb, StLe.refl _⟩⟩
   exact ⟨h.1.2, h.2.2, h.1.1, h.2.1⟩
 
-/-- **C02 (the exchange of points converges).** Let `L` and `U` be the rows of one node (or one edge) on
-the downstream and the upstream instance: one row per identity each, stored (normalised) points, and two
-different points of one identity never carrying the same time stamp. Write what `syncPts` selects for
-each direction, point by point, through the store's merge. Then both sides hold exactly the newest point
-of every identity found on either side — the same rows. -/
 theorem flatten_singletons {α} (l : List α) : (l.map (fun q => [q])).flatten = l := by
   induction l with
   | nil => rfl
   | cons a l ih => simp [ih]
 
+/-- **C02 (the exchange of points converges).** Let `L` and `U` be the rows of one node (or one edge) on
+the downstream and the upstream instance: one row per identity each, stored (normalised) points, and two
+different points of one identity never carrying the same time stamp. Write what `syncPts` selects for
+each direction, point by point, through the store's merge. Then both sides hold exactly the newest point
+of every identity found on either side — the same rows. -/
 theorem c02_points_converge (L U : List Point) (hL : IdUnique L) (hU : IdUnique U)
     (hnL : ∀ p ∈ L, normPoint p = p) (hnU : ∀ p ∈ U, normPoint p = p) (hadm : Admissible (L ++ U)) (p : Point) :
     let L' := rowsAfter L ((syncPts L U).2.map (fun q => [q]))
